@@ -13,7 +13,7 @@
 //!           instruction applies, with the values computed by the generator's own switch semantics, and the
 //!           default-on flag bits of every copy are those of the label.
 //!
-//! usage: c14 labels <n> | parse <n> | elab <n> | flags <file> | text <file>
+//! usage: c14 labels <n> | parse <n> | elab <n> | runs <n> | flags <file> | text <file> | run <file>
 use std::fmt::Write as _;
 use truth::ast;
 use truth::sp;
@@ -62,9 +62,32 @@ fn table_of(ops: &[FlagOp]) -> Table {
 fn gen_ops(rng: &mut Rng, hist: &mut std::collections::BTreeMap<&'static str, u64>, allow_invalid: bool, allow_repoint: bool) -> Vec<FlagOp> {
     let mut bump = |k: &'static str| *hist.entry(k).or_insert(0) += 1;
     let n = match rng.below(6) { 0 => 0, 1 => 1, 2 => 4, 3 => 8, _ => rng.range(1, 10) as usize };
-    let style = rng.below(4);
+    let style = rng.below(5);
     let mut ops: Vec<FlagOp> = vec![];
-    let names_pool: Vec<char> = "ENHLXOabcdxyzZ09".chars().collect();
+    let names_pool: Vec<char> = "ENHLXOabcdxyzZ0123456789".chars().collect();
+    if style == 4 {
+        // move digit names onto other bits: free one digit by giving its bit a letter, then hand the freed
+        // digit to another bit (which frees that bit's digit), and so on -- no name is ever re-pointed
+        let mut name_of: Vec<char> = "01234567".chars().collect();
+        let first = rng.below(8) as usize;
+        let letter = *rng.pick(&['a', 'E', 'x', 'Z']);
+        let mut freed = name_of[first];
+        name_of[first] = letter;
+        ops.push(FlagOp { index: first as i64, text: format!("{}{}", letter, if rng.chance(1, 2) { '+' } else { '-' }) });
+        for _ in 0..rng.range(1, 6) {
+            let cands: Vec<usize> = (0..8).filter(|b| name_of[*b].is_ascii_digit() && name_of[*b] != freed).collect();
+            if cands.is_empty() { break; }
+            let t = *rng.pick(&cands);
+            let old = name_of[t];
+            name_of[t] = freed;
+            ops.push(FlagOp { index: t as i64, text: format!("{}{}", freed, if rng.chance(1, 4) { '+' } else { '-' }) });
+            freed = old;
+        }
+        bump("defs_digit_names_moved");
+        let t = table_of(&ops);
+        if t.default_on.iter().any(|b| *b) { bump("defs_with_default_on_flags"); }
+        return ops;
+    }
     for k in 0..n {
         let index = if style == 0 { k as i64 % 8 } else { rng.range(0, 7) };
         let mut name = match style { 0 => "ENHLabcd".chars().nth(k % 8).unwrap(), _ => *rng.pick(&names_pool) };
@@ -229,6 +252,119 @@ fn run_mask_file(ops: &[FlagOp], note: &str) {
         Ok(None) => println!("ORACLE-FAIL\tdecompiled script with all 256 difficulty masks does not compile{}\t{}", what_suffix, note),
         Err(p) => println!("ORACLE-FAIL\tpanic while recompiling: {}\t{}", oneline(&p), note),
     }
+}
+
+// ---------------------------------------------------------------------------------------------
+// RUNS: stored instruction runs with arbitrary difficulty masks -> decompile (switch recognition on) -> recompile;
+// on every difficulty 0..7 the sequence of (time, opcode, arguments) that runs must be unchanged
+
+fn per_difficulty(instrs: &[truth::llir::RawInstr], d: u32) -> Vec<(i32, u16, Vec<u8>)> {
+    instrs.iter().filter(|i| (i.difficulty as u32) & (1 << d) != 0).map(|i| (i.time, i.opcode, i.args_blob.clone())).collect()
+}
+
+struct Run { ops: Vec<FlagOp>, instrs: Vec<(i32, u16, i32, u8)> /* time, opcode (900/901), value, mask */ }
+
+fn gen_run(rng: &mut Rng, hist: &mut std::collections::BTreeMap<&'static str, u64>) -> Run {
+    let ops = if rng.chance(1, 3) {
+        // the TH08 layout: four difficulties, four default-on flags
+        "0 E-,1 N-,2 H-,3 L-,4 4+,5 F+,6 U+,7 7+".split(',').map(|l| { let (i, t) = l.split_once(' ').unwrap(); FlagOp { index: i.parse().unwrap(), text: t.to_string() } }).collect()
+    } else { gen_ops(rng, hist, false, false) };
+    let t = table_of(&ops);
+    let aux: u32 = (0..8).filter(|b| t.default_on[*b]).map(|b| 1u32 << b).sum();
+    let diff: u32 = 0xff & !aux;
+    let diff_bits: Vec<u32> = (0..8).filter(|b| diff & (1 << b) != 0).collect();
+    let n = rng.range(2, 8) as usize;
+    let style = rng.below(7);
+    let mut bump = |k: &'static str| *hist.entry(k).or_insert(0) += 1;
+    // difficulty parts of the masks
+    let mut parts: Vec<u32> = vec![];
+    let w = if rng.chance(1, 2) { 4.min(diff_bits.len()) } else { diff_bits.len() };
+    match style {
+        0 | 1 | 2 | 3 if w >= 2 => {
+            // split the first w difficulty bits into contiguous ranges
+            let k = (rng.range(2, 5) as usize).min(w).min(n);
+            let mut cuts: Vec<usize> = vec![];
+            while cuts.len() < k - 1 { let c = rng.range(1, w as i64 - 1) as usize; if !cuts.contains(&c) { cuts.push(c); } }
+            cuts.sort(); cuts.insert(0, 0); cuts.push(w);
+            for j in 0..k { parts.push((cuts[j]..cuts[j + 1]).map(|b| 1u32 << diff_bits[b]).sum()); }
+            match style {
+                0 => bump("run_contiguous_partition"),
+                1 => {
+                    // a hole: move one difficulty bit from one variant to a non-adjacent one
+                    bump("run_partition_with_hole");
+                    let a = rng.below(parts.len() as u64) as usize; let b = rng.below(parts.len() as u64) as usize;
+                    if a != b { let bits: Vec<u32> = (0..8).filter(|x| parts[a] & (1 << x) != 0).collect(); if bits.len() > 1 || parts.len() > 2 { let m = 1u32 << *rng.pick(&bits); parts[a] &= !m; parts[b] |= m; } }
+                    if rng.chance(1, 2) { let hi = *diff_bits.last().unwrap(); let j = rng.below(parts.len() as u64) as usize; parts[j] |= 1 << hi; }
+                },
+                2 => { bump("run_partition_with_gap"); let j = rng.below(parts.len() as u64) as usize; let bits: Vec<u32> = (0..8).filter(|x| parts[j] & (1 << x) != 0).collect(); parts[j] &= !(1u32 << *rng.pick(&bits)); },
+                _ => { bump("run_partition_with_overlap"); let j = rng.below(parts.len() as u64) as usize; parts[j] |= 1u32 << *rng.pick(&diff_bits); },
+            }
+            parts.retain(|p| *p != 0 || rng.chance(1, 4));
+        },
+        4 => { bump("run_single_bits_shuffled"); for b in &diff_bits { if rng.chance(3, 4) { parts.push(1 << b); } } let l = parts.len(); if l > 1 { let i = rng.below(l as u64) as usize; let j = rng.below(l as u64) as usize; parts.swap(i, j); } },
+        _ => { bump("run_random_masks"); for _ in 0..n { parts.push(rng.below(256) as u32 & diff); } },
+    }
+    if parts.is_empty() { parts.push(diff); }
+    // default-on flag part: the same for every variant, or varying
+    let aux_style = rng.below(4);
+    let common_aux = match aux_style { 0 => aux, 1 => 0, _ => rng.below(256) as u32 & aux };
+    let mut instrs = vec![];
+    // optional ordinary instruction before and after the run
+    if rng.chance(1, 2) { instrs.push((0, 900u16, 7, 0xffu8)); }
+    let same_value = rng.chance(1, 5);
+    let opcode = if rng.chance(1, 6) { 901 } else { 900 };
+    let mut time = 0;
+    for (j, p) in parts.iter().enumerate() {
+        let a = if aux_style == 3 && rng.chance(1, 3) { rng.below(256) as u32 & aux } else { common_aux };
+        if rng.chance(1, 12) { time += 5; }
+        let op = if rng.chance(1, 15) { 1801 - opcode } else { opcode };
+        instrs.push((time, op, if same_value { 5 } else { 10 * (j as i32 + 1) + rng.range(0, 1) as i32 }, (p | a) as u8));
+    }
+    if rng.chance(1, 2) { instrs.push((time, 900u16, 8, 0xffu8)); }
+    Run { ops, instrs }
+}
+
+fn run_run(r: &Run) -> Option<()> {
+    let mapfile = mapfile_of(&r.ops, true);
+    let note = format!("flags=[{}] run=[{}]", r.ops.iter().map(|o| format!("{} {}", o.index, o.text)).collect::<Vec<_>>().join(", "),
+                       r.instrs.iter().map(|(t, op, v, m)| format!("{}:{}:{}:{}", t, op, v, m)).collect::<Vec<_>>().join(" "));
+    let mut src = String::from("void sub0() {\n");
+    for (_, op, v, _) in &r.instrs { if *op == 900 { writeln!(src, "    ins_900({});", v).unwrap(); } else { writeln!(src, "    ins_901({}, 3);", v).unwrap(); } }
+    src.push_str("}\n");
+    let mut ecl = match compile_text(&src, &mapfile) { Ok(Some(e)) => e, _ => { println!("ORACLE-FAIL\tcannot compile the carrier script of an instruction run\t{}", note); return None; } };
+    { let sub = ecl.subs.values_mut().next()?; if sub.instrs.len() != r.instrs.len() { return None; }
+      for (i, (t, _, _, m)) in r.instrs.iter().enumerate() { sub.instrs[i].time = *t; sub.instrs[i].difficulty = *m; } }
+    let text = match decompile_text(&ecl, &mapfile) {
+        Ok(Some(t)) => t,
+        Ok(None) => { println!("ORACLE-FAIL\tdecompile error on an instruction run with difficulty masks\t{}", note); return None; },
+        Err(p) => { println!("ORACLE-FAIL\tpanic while decompiling an instruction run with difficulty masks: {}\t{}", oneline(&p), note); return None; },
+    };
+    match compile_text(&text, &mapfile) {
+        Ok(Some(re)) => {
+            let a = &ecl.subs.values().next()?.instrs; let b = &re.subs.values().next()?.instrs;
+            for d in 0..8u32 {
+                let (x, y) = (per_difficulty(a, d), per_difficulty(b, d));
+                if x != y {
+                    let show = |v: &Vec<(i32, u16, Vec<u8>)>| v.iter().map(|(t, o, bl)| format!("{}@{}:{}", o, t, bl.chunks(4).map(|c| i32::from_le_bytes([c[0], c[1], c[2], c[3]]).to_string()).collect::<Vec<_>>().join(","))).collect::<Vec<_>>().join(" ");
+                    println!("ORACLE-FAIL\tdecompile+recompile changes what runs on a difficulty: difficulty {} ran [{}], now runs [{}]\t{}\t{}", d, show(&x), show(&y), note, oneline(&text));
+                    break;
+                }
+            }
+        },
+        Ok(None) => println!("ORACLE-FAIL\tdecompiled instruction run does not compile\t{}\t{}", note, oneline(&text)),
+        Err(p) => println!("ORACLE-FAIL\tpanic while recompiling an instruction run: {}\t{}", oneline(&p), note),
+    }
+    Some(())
+}
+
+fn parse_run_file(text: &str) -> Option<Run> {
+    // `# flags: 0 E-, 1 N-` then one line `time:opcode:value:mask ...`
+    let mut ops = vec![]; let mut instrs = vec![];
+    for l in text.lines() {
+        if let Some(f) = l.strip_prefix("# flags:") { ops = parse_flags_file(&f.split(',').map(|x| x.trim()).collect::<Vec<_>>().join("\n")); }
+        else { for e in l.split_whitespace() { let v: Vec<&str> = e.split(':').collect(); if v.len() == 4 { instrs.push((v[0].parse().ok()?, v[1].parse().ok()?, v[2].parse().ok()?, v[3].parse().ok()?)); } } }
+    }
+    Some(Run { ops, instrs })
 }
 
 // ---------------------------------------------------------------------------------------------
@@ -412,6 +548,17 @@ fn main() {
                 match run_elab(&p, "") { Some(l) => println!("{}", l), None => rejected += 1 }
             }
         },
+        Some("runs") => {
+            for _ in 0..n {
+                let mut r = rng.fork();
+                let run = gen_run(&mut r, &mut hist);
+                *hist.entry("runs").or_insert(0) += 1;
+                if run_run(&run).is_none() { rejected += 1; }
+            }
+        },
+        Some("run") => {
+            match parse_run_file(&std::fs::read_to_string(&args[2]).expect("read")) { Some(r) => { run_run(&r); }, None => println!("REJECTED\tparse") }
+        },
         Some("flags") => {
             // replay: a file with `<index> <two characters>` lines
             let ops = parse_flags_file(&std::fs::read_to_string(&args[2]).expect("read"));
@@ -455,7 +602,7 @@ fn main() {
             let p = ElabProg { ops, label, args: a };
             match run_elab(&p, "") { Some(l) => println!("{}", l), None => println!("REJECTED\tparse") }
         },
-        _ => { eprintln!("usage: c14 labels <n> | parse <n> | elab <n> | flags <file> | text <file>"); std::process::exit(2); },
+        _ => { eprintln!("usage: c14 labels <n> | parse <n> | elab <n> | runs <n> | flags <file> | text <file> | run <file>"); std::process::exit(2); },
     }
     println!("STATS\trejected={}\thist={:?}", rejected, hist);
 }
